@@ -363,7 +363,7 @@ fn main() {
     let check = Check::new("C24", "exploration");
     check.rule("(tracker) 1-3 registered sources with out-of-order bounds 0-5 s, <=40 ops {observe(source or an unregistered one, ts), upstream advance, late registration of a new source}, timestamps = advancing front with bounded disorder on a 250 ms grid; after every op: each source's watermark non-decreasing, effective = min over sources that have one, plus a full reference model of the tracker. (engine) 1-4 streams over 1-3 event types rendered to VPL with optional .watermark(out_of_order:) / .allowed_lateness() and .emit(id), <=30 events incl. a type nobody consumes; dropped (= no output) => ts < effective-before-the-event and ts < effective - lateness for every consuming stream that configures lateness; same monotonic/min invariants on the engine's tracker read through create_checkpoint(). non-trivial = >=2 sources with a watermark and >=1 event behind the effective watermark");
     check.assume("tracker state is read through checkpoint() (ms resolution; all generated times are on a ms grid); 'dropped' is observed as 'no output of any consuming passthrough stream'; side-output diversion cannot be configured from VPL and is not exercised; re-registering an already known source (replaces its state) is outside the domain");
-    check.explore("tracker", tstrat, 20_000, 400_000, judge_tracker);
-    check.explore("engine", estrat, 6_000, 100_000, judge_engine);
+    check.explore("tracker", tstrat, 40_000, 800_000, judge_tracker);
+    check.explore("engine", estrat, 12_000, 200_000, judge_engine);
     check.finish();
 }
